@@ -15,6 +15,7 @@ func init() {
 			"ERR-STICKY: a failure recorded in the field an iterator's Err() reports is never overwritten by a possibly-nil value (consumers call Next again after false: rangeAggIterator does at every step)",
 			"C03's decoder rules (stream read API, fault exits) are re-checked here: a malformed frame at any position is an error",
 			"PF-NILCLOSE: deferred cleanups of values returned with an error are registered under err == nil",
+			"PV-WHOLE: every successful evaluation returns a typed response",
 		},
 		NotDecided: []string{"that Close of the Docker client's body releases the connection", "double close", "context cancellation"},
 		Rules: func(r *Run) {
